@@ -152,7 +152,12 @@ func (evt *startEvent) NextAction(ctx context.Context, flow Flow) chan IAction {
 	})
 
 	response := make(chan IAction, 1)
-	evt.mch <- nextActionMessage{response: response, flow: flow}
+	select {
+	case evt.mch <- nextActionMessage{response: response, flow: flow}:
+	case <-evt.stopped:
+		// the loop has ended with its context: the flow, which watches the same
+		// context, gets a channel on which no action ever arrives
+	}
 	return response
 }
 
